@@ -52,6 +52,7 @@ bool tool_file(const Sandbox& sb, const std::string& rel)
 static void op_c05_fix(Exec& x, const Json& op, int)
 {
 	CmdSpec spec = CmdSpec::from_json(op.at("spec"));
+	const std::string P = op.str("as", "C05"); // the decoy family judges the same oracle under C19
 	std::vector<LoadedContent> cs = load_contents(x.sb);
 	const LoadedContent* lc = first_good(cs);
 	if (!lc) { x.probe("c05.no_content"); return; }
@@ -66,6 +67,13 @@ static void op_c05_fix(Exec& x, const Json& op, int)
 	x.check_parity_every_cmd = saved;
 	if (r.harness_error) { x.harness("c05 fix"); return; }
 	Snap after = x.sb.snapshot(x.sb.data_tops());
+	if (spec.cmd == "check") {
+		// check never writes: decoys, import directories and duplicates are only read
+		std::string d = snap_diff(before, after, true);
+		if (!d.empty()) x.violation(P, "check-modified-files", "check: " + d);
+		++x.out.cases;
+		return;
+	}
 	std::vector<Tag> tags = parse_tags(r.log);
 	std::string cl = "fix";
 	for (auto& o : spec.opts) cl += " " + o;
@@ -106,7 +114,7 @@ static void op_c05_fix(Exec& x, const Json& op, int)
 		bool changed = (ita == after.end()) != (itb == before.end()) || (ita != after.end() && itb != before.end() && ita->second.data != itb->second.data);
 		if (filtered && !touched) {
 			// outside the selection (or nothing to do): must not have been written
-			if (changed && !aborted) x.violation("C05", "written-outside-selection", cl + ": " + rel + " changed although fix reported nothing about it");
+			if (changed && !aborted) x.violation(P, "written-outside-selection", cl + ": " + rel + " changed although fix reported nothing about it");
 			continue;
 		}
 		if (!touched && !changed && filtered) continue;
@@ -145,7 +153,12 @@ static void op_c05_fix(Exec& x, const Json& op, int)
 					if (only_bad_blocks && !(c.info[f.blocks[bi].pos].present && c.info[f.blocks[bi].pos].bad)) continue;
 					uint64_t off = (uint64_t)bi * c.block_size;
 					uint64_t len = std::min<uint64_t>(c.block_size, d.size() - off);
-					if (memcmp(d.data() + off, g->data() + off, len) != 0) same = false;
+					if (memcmp(d.data() + off, g->data() + off, len) == 0) continue;
+					// a block whose bytes hash to the recorded hash is the recorded block (a provisional hash inherited by copy
+					// detection is what the content file records for that block)
+					bool rehash = c.info[f.blocks[bi].pos].present && c.info[f.blocks[bi].pos].rehash;
+					Bytes h = ref_hash(c, d.substr(off, len), rehash);
+					if (h.empty() || h != f.blocks[bi].hash) same = false;
 				}
 				if (same) correct_hashed = true;
 			}
@@ -162,7 +175,13 @@ static void op_c05_fix(Exec& x, const Json& op, int)
 				uint64_t off = (uint64_t)bi * c.block_size;
 				uint64_t len = std::min<uint64_t>(c.block_size, d.size() - off);
 				if (memcmp(d.data() + off, g->data() + off, len) == 0) continue;
-				if (f.blocks[bi].state != BS_CHG) { ok = false; break; }
+				if (f.blocks[bi].state != BS_CHG) {
+					bool rehash = c.info[f.blocks[bi].pos].present && c.info[f.blocks[bi].pos].rehash;
+					Bytes h = ref_hash(c, d.substr(off, len), rehash);
+					if (!h.empty() && h == f.blocks[bi].hash) continue; // hashes to the recorded (possibly inherited) hash
+					ok = false;
+					break;
+				}
 				bool untouched = was && was->size() >= off + len && memcmp(was->data() + off, d.data() + off, len) == 0;
 				if (!untouched) ok = false;
 			}
@@ -215,19 +234,19 @@ static void op_c05_fix(Exec& x, const Json& op, int)
 					fprintf(stderr, "  block %zu pos %u state %d hash %s : %s%s\n", bi, f.blocks[bi].pos, f.blocks[bi].state, hex(f.blocks[bi].hash.data(), 4).c_str(), same ? "same" : "DIFFERENT", zero ? " (all zero on disk)" : "");
 				}
 			}
-			x.violation("C05", "recovered-with-wrong-data", cl + ": " + rel + strf(" is reported recovered but %s", present ? "its bytes are not the recorded version" : "it does not exist") + kind);
+			x.violation(P, "recovered-with-wrong-data", cl + ": " + rel + strf(" is reported recovered but %s", present ? "its bytes are not the recorded version" : "it does not exist") + kind);
 		}
 		else if (!correct_hashed && !is_reported && !aborted) {
 			if (!present) {
 				// a missing file that fix did not even try (e.g. unsynced and -e) is not "left under its name"
-				if (touched || !filtered) x.violation("C05", "missing-not-reported", cl + ": " + rel + " is still missing and was not reported unrecoverable");
+				if (touched || !filtered) x.violation(P, "missing-not-reported", cl + ": " + rel + " is still missing and was not reported unrecoverable");
 			} else
-				x.violation("C05", "wrong-data-not-reported", cl + ": " + rel + " holds other bytes than the recorded version and was not reported unrecoverable");
+				x.violation(P, "wrong-data-not-reported", cl + ": " + rel + " holds other bytes than the recorded version and was not reported unrecoverable");
 		}
 		if (is_reported) {
 			x.probe("c05.unrecoverable_reported");
-			if (r.exit_code == 0) x.violation("C05", "unrecoverable-exit-ok", cl + ": " + rel + " reported unrecoverable but the exit status is 0");
-			if (sum_unrec == 0 && !aborted) x.violation("C05", "unrecoverable-not-counted", cl + ": " + rel + " reported unrecoverable but summary:error_unrecoverable is 0");
+			if (r.exit_code == 0) x.violation(P, "unrecoverable-exit-ok", cl + ": " + rel + " reported unrecoverable but the exit status is 0");
+			if (sum_unrec == 0 && !aborted) x.violation(P, "unrecoverable-not-counted", cl + ": " + rel + " reported unrecoverable but summary:error_unrecoverable is 0");
 			if (!after.count(rel + ".unrecoverable") && present == false) x.probe("c05.unrecoverable_without_rename");
 		}
 		if (correct && reported_rec.count(rel)) x.probe("c05.recovered_correctly");
@@ -243,7 +262,7 @@ static void op_c05_fix(Exec& x, const Json& op, int)
 		if (ends_with(kv.first, ".unrecoverable")) continue;
 		if (known_inodes.count(kv.second.vino)) continue; // another name (hard link) of a recorded file
 		auto it = after.find(kv.first);
-		if (it == after.end() || it->second.data != kv.second.data) x.violation("C05", "unknown-file-written", cl + ": " + kv.first + " is not recorded in the content file and was modified");
+		if (it == after.end() || it->second.data != kv.second.data) x.violation(P, "unknown-file-written", cl + ": " + kv.first + " is not recorded in the content file and was modified");
 	}
 	if (judged) { ++x.out.nontrivial_cases; x.out.nontrivial = true; x.out.case_hashes.insert(mix64(x.plan->seed, x.out.cases)); }
 	x.probe("c05.files_judged", judged);
